@@ -232,6 +232,24 @@ def warm(g, full: bool = True) -> None:
             pass
 
 
+def maybe_warm(*boxes, p: float = 0.5) -> int:
+    """Operands that have been looked at before they are combined (their lazy attributes - footprint, hash, ... - are filled): decided per box by a private RNG keyed by
+    the box, so generator streams are unchanged.  Returns how many were warmed."""
+    import hashlib
+
+    n = 0
+    for g in boxes:
+        try:
+            h = int.from_bytes(hashlib.blake2b(repr((aff6(g.affine), tuple(g.shape), "w")).encode(), digest_size=8).digest(), "big")
+        except Exception:  # noqa: BLE001
+            continue
+        if (h % 1000) / 1000.0 < p:
+            warm(g, full=(h % 7 == 0))
+            n += 1
+    WARM["warmed_operands"] = WARM.get("warmed_operands", 0) + n
+    return n
+
+
 def warm_view(g):
     """The same GeoBox (identical shape, affine and CRS), but - for about a third of the boxes - obtained the way real code obtains one: as a resized view
     (expand / crop / pad_wh / [:ny, :nx]) of another GeoBox that has already been looked at.  Whatever the parent cached about *itself* must not travel to the view.
@@ -248,7 +266,7 @@ def warm_view(g):
             WARM["plain"] += 1
             return g
         k, j = r.randint(1, 3), r.randint(1, 3)
-        how = r.choice(["expand", "crop", "pad_wh", "slice"])
+        how = r.choice(["expand", "crop", "pad_wh", "slice", "right-of-left", "bottom-of-top", "flip-twice", "translate-back"])
         full = r.random() < 0.2
         if how in ("expand", "pad_wh") and (ny - k < 1 or nx - j < 1):
             how = "crop"
@@ -264,10 +282,26 @@ def warm_view(g):
             parent = g.expand((ny + k, nx + j))
             warm(parent, full)
             out = parent.crop((ny, nx))
-        else:
+        elif how == "slice":
             parent = g.expand((ny + k, nx + j))
             warm(parent, full)
             out = parent[:ny, :nx]
+        elif how == "right-of-left":
+            parent = g.left
+            warm(parent, full)
+            out = parent.right
+        elif how == "bottom-of-top":
+            parent = g.top
+            warm(parent, full)
+            out = parent.bottom
+        elif how == "flip-twice":
+            parent = g.flipx() if k % 2 else g.flipy()
+            warm(parent, full)
+            out = parent.flipx() if k % 2 else parent.flipy()
+        else:
+            parent = g.translate_pix(-k * nx, j)
+            warm(parent, full)
+            out = parent.translate_pix(k * nx, -j)
         if tuple(out.shape) != (ny, nx) or aff6(out.affine) != aff6(g.affine) or out.crs != g.crs or type(out) is not type(g):
             WARM["plain"] += 1  # a view that is not what it should be is C02's business
             return g
